@@ -399,6 +399,11 @@ impl ToLatex for Primitive {
 impl fmt::Display for Primitive {
     fn fmt(&self, f: &mut fmt::Formatter<'_>) -> fmt::Result {
         let s = match self {
+            //an integral value outside the i64 range would be read back as an (overflowing)
+            //integer literal, keep it a decimal literal
+            Primitive::Number(n) if n.is_finite() && n.fract() == 0.0 && n.abs() >= 9223372036854775808.0 => {
+                format!("{}.0", n)
+            }
             Primitive::Number(n) => n.to_string(),
             Primitive::Integer(n) => n.to_string(),
             Primitive::PositiveInteger(n) => n.to_string(),
